@@ -22,9 +22,9 @@ package main
 // directions intact; after a resumption the server reports the client certificates of the original session.
 
 import (
-	"sort"
 	"bytes"
 	"fmt"
+	"sort"
 	"strconv"
 	"strings"
 	"sync"
@@ -156,7 +156,7 @@ func evalResume(args []string) string {
 	}
 	clientTicketsOff := false
 	masterToConn := map[string]int{}
-	sessCerts := map[int]int{} // full handshake number -> client certificates the server saw
+	sessCerts := map[int]int{}       // full handshake number -> client certificates the server saw
 	sessServer := map[int][][]byte{} // full handshake number -> server certificates the client saw
 	var out []string
 	nconn := 0
